@@ -41,6 +41,8 @@ where
     M::State: Hash + Send + 'static,
 {
     pub(crate) fn spawn(options: CheckerBuilder<M>) -> Self {
+        #[cfg(getong_stateright_verif)]
+        use crate::verif::time::SystemTime;
         let model = Arc::new(options.model);
         let target_state_count = options.target_state_count;
         let target_max_depth = options.target_max_depth;
@@ -134,6 +136,8 @@ where
                                 );
                             }
 
+                            #[cfg(getong_stateright_verif)]
+                            let verif_ack_due = wait_for_fingerprints;
                             if wait_for_fingerprints {
                                 // Step 0: wait for someone to ask us to do work
                                 loop {
@@ -160,6 +164,9 @@ where
                                                     // process this group
                                                     break;
                                                 }
+                                                // request handled: nothing pending here has that fingerprint
+                                                #[cfg(getong_stateright_verif)]
+                                                crate::verif::ondemand_ack();
                                             }
                                             ControlFlow::RunToCompletion => {
                                                 log::debug!("{}: running to completion", t);
@@ -190,6 +197,12 @@ where
                                 &max_depth,
                             );
                             pending.append(&mut targetted_pending);
+                            #[cfg(getong_stateright_verif)]
+                            if verif_ack_due {
+                                crate::verif::ondemand_ack();
+                            }
+                            #[cfg(getong_stateright_verif)]
+                            crate::verif::yield_point("block-end");
                             if discoveries.len() == property_count {
                                 log::debug!(
                                     "{}: Discovery complete. Shutting down... gen={}",
@@ -273,6 +286,8 @@ where
                 None => return,
                 Some(pair) => pair,
             };
+            #[cfg(getong_stateright_verif)]
+            crate::verif::yield_point("state");
 
             if max_depth.get() > current_max_depth {
                 let _ = global_max_depth.compare_exchange(
@@ -372,6 +387,8 @@ where
                 // property held on the path leading to the first visit as meaning
                 // that it holds in the path leading to the second visit -- another
                 // possible false-negative.
+                #[cfg(getong_stateright_verif)]
+                crate::verif::yield_point("gen");
                 if let Entry::Vacant(next_entry) = generated.entry(next_fp) {
                     next_entry.insert(Some(state_fp));
                 } else {
@@ -396,6 +413,8 @@ where
                     NonZeroUsize::new(max_depth.get() + 1).unwrap(),
                 ));
             }
+            #[cfg(getong_stateright_verif)]
+            crate::verif::yield_point("terminal");
             if is_terminal {
                 for (i, property) in properties.iter().enumerate() {
                     // Once a discovery exists the bits are no longer maintained along the path (see
